@@ -17,6 +17,13 @@ impl Hasher for Rec {
     fn write_u32(&mut self, i: u32) { self.0.push_str(&format!("u32:{};", i)); }
     fn write_u64(&mut self, i: u64) { self.0.push_str(&format!("u64:{};", i)); }
 }
+/// a field type whose `partial_cmp` is NOT `Some(cmp)` (255 is incomparable, but `cmp` is total): a derived
+/// `partial_cmp` must ask the fields for their `partial_cmp`, as the standard derive does
+#[derive(Debug, Clone, Copy, Default, PartialEq, Eq, Hash)]
+pub struct Pn(pub u8);
+impl Ord for Pn { fn cmp(&self, o: &Pn) -> ::core::cmp::Ordering { self.0.cmp(&o.0) } }
+impl PartialOrd for Pn { fn partial_cmp(&self, o: &Pn) -> Option<::core::cmp::Ordering> {
+    if self.0 == 255 || o.0 == 255 { None } else { Some(self.0.cmp(&o.0)) } } }
 pub fn feed<T: Hash + ?Sized>(x: &T) -> String { let mut h = Rec(String::new()); x.hash(&mut h); h.0 }
 '''
 # field types: (name, sexp, rust, values, needs)
@@ -30,6 +37,7 @@ FT = [
     ('unit', sx.ttuple([]), '()', ['()'], ()),
     # a type whose `==` is not reflexive (only where no Eq / Ord / Hash is derived): `x == x` must be computed
     ('f64', sx.tid('f64'), 'f64', ['0.5f64', 'f64::NAN'], ()),
+    ('pn', sx.tid('Pn'), 'Pn', ['Pn(0)', 'Pn(255)'], ()),
 ]
 TRAITS = ['Clone', 'Debug', 'Default', 'PartialEq', 'Eq', 'PartialOrd', 'Ord', 'Hash']
 SUPER = {'Eq': ['PartialEq'], 'PartialOrd': ['PartialEq'], 'Ord': ['Eq', 'PartialOrd', 'PartialEq']}
